@@ -112,6 +112,35 @@ func runC10Order(c *Ctx) {
 				return
 			}
 			rev, ok := reviewedMapLoops[root]
+			if !ok && isNewHelper(rootFunc(f)) {
+				// a helper introduced after the baseline: it is part of the bodies
+				// of the functions it was extracted from — all its (transitive)
+				// baseline callers must be reviewed loops, and share one entry
+				var owners []string
+				seen := map[*ssa.Function]bool{}
+				var up func(g *ssa.Function, d int)
+				up = func(g *ssa.Function, d int) {
+					g = rootFunc(g)
+					if seen[g] || d > 4 {
+						return
+					}
+					seen[g] = true
+					if !isNewHelper(g) {
+						owners = append(owners, FuncName(g))
+						return
+					}
+					for _, ci := range c.P.callersOf(g) {
+						up(ci.Parent(), d+1)
+					}
+				}
+				up(f, 0)
+				if len(owners) == 1 {
+					if r2, ok2 := reviewedMapLoops[owners[0]]; ok2 {
+						rev, ok = r2, true
+						rev.reason = "helper of " + owners[0] + ": " + rev.reason
+					}
+				}
+			}
 			if !ok {
 				c.Bad(rg.Pos(), fn, construct, "iteration order of a map can reach the result: "+sensitive[0]+", and the function is not a reviewed loop with a canonicaliser (sort the collected values, or iterate a slice)")
 				return
